@@ -1,6 +1,6 @@
 (* C16 — the consistency check is exact, for every listing order.
    Statements only; proofs in theories/StoreOps_proofs.v. *)
-From Whawty Require Import Bytes Names Record Store StoreOps_proofs.
+From Whawty Require Import Bytes Names Record Store StoreOps_proofs Store_proofs StoreInv_proofs.
 From Coq Require Import Permutation.
 Open Scope N_scope.
 
@@ -17,3 +17,51 @@ Theorem C16_init_only_if_empty : forall kdf c d u pw o d',
   init_store kdf c d u pw o = (d', ROk) -> d = [] \/ exists k, d = [(tmp_name, Dir k)].
 Proof. exact init_only_if_empty. Qed.
 Print Assumptions C16_init_only_if_empty.
+
+(* ---- histories from a valid store ---- *)
+Section C16.
+  Variable kdf : hasher -> bytes -> bytes -> option bytes.
+  Hypothesis kdf_out : forall h s p d, kdf h s p = Some d -> bytes_wf d = true /\ d <> [].
+
+  (* never two files for one user; the work area is empty after every
+     completed operation - whether it succeeded or failed *)
+  Theorem C16_step_preserves_wf : forall c d o orc,
+    wf_store d -> wf_store (dir_of (step kdf c d o orc)).
+  Proof. exact (step_preserves_wf kdf). Qed.
+
+  (* every operation that does not remove or demote the last administrator
+     keeps the store valid *)
+  Theorem C16_step_preserves_valid : forall c d o orc,
+    cfg_wf c -> oracle_ok orc -> wf_store d -> spec_valid c d ->
+    (forall u, o = OpRemove u \/ o = OpSetAdmin u false ->
+       exists u0 content, u0 <> u /\ dlookup (u0 ++ ext_admin) d = Some (File content) /\
+                          is_supported c content = true) ->
+    spec_valid (cfg_of (step kdf c d o orc)) (dir_of (step kdf c d o orc)).
+  Proof. exact (step_preserves_valid kdf kdf_out). Qed.
+
+  Theorem C16_history_preserves_valid : forall hs c d,
+    cfg_wf c -> wf_store d -> spec_valid c d -> safe_history kdf c d hs ->
+    let '(c', d') := run kdf c d hs in
+    wf_store d' /\ spec_valid c' d'.
+  Proof. exact (history_preserves_valid kdf kdf_out). Qed.
+
+  Theorem C16_init_produces_valid : forall c u pw o d',
+    cfg_wf c -> oracle_ok o ->
+    init_store kdf c [] u pw o = (d', ROk) -> wf_store d' /\ spec_valid c d'.
+  Proof. exact (init_produces_valid kdf kdf_out). Qed.
+End C16.
+Print Assumptions C16_step_preserves_wf.
+Print Assumptions C16_step_preserves_valid.
+Print Assumptions C16_history_preserves_valid.
+Print Assumptions C16_init_produces_valid.
+
+(* non-vacuity: a valid store exists, and the check accepts it in both listing orders *)
+Definition toy_kdf (h : hasher) (s p : bytes) : option bytes := Some (5 :: p ++ s).
+Definition toy_cfg : config := {| params := [(1, HArgon 1 8 1 16)]; default := 1 |}.
+Definition toy_orc (t : Z) (s : bytes) : oracle := {| o_ts := t; o_salt := s; o_tmp := str "t"; o_order := [] |}.
+Example C16_nonvacuous :
+  let d1 := fst (init_store toy_kdf toy_cfg [] (str "root") (str "pw") (toy_orc 10 [1])) in
+  let d2 := fst (add_user toy_kdf toy_cfg d1 (str "bob") (str "pw2") false (toy_orc 11 [2])) in
+  check_loop toy_cfg d2 d2 false = true /\ check_loop toy_cfg d2 (rev d2) false = true /\
+  check_loop toy_cfg d2 (remove_user d2 (str "root")) false = false.
+Proof. vm_compute. auto. Qed.
